@@ -8,11 +8,23 @@ open TxV TxV.Proto TxV.Bits TxV.Shifter
     `op=gsr|gsl w=5 a=19 b=7 off=2`           → `r=…`       (generic_shift_right / _left)
     `op=vshr|vshl ew=3 d=1,2,3,7 off=3 ph=5`  → `r=7,5,5,5` (shift_vec_right / _left)
     `op=vror|vrol ew=3 d=1,2,3,7 off=1`       → `r=2,3,7,1` (rotate_vec_right / _left)
-    `op=gvsr|gvsl ew=3 d=1,2 e=3,4 off=1`     → `r=2,3`     (generic_shift_vec_right / _left) -/
+    `op=gvsr|gvsl ew=3 d=1,2 e=3,4 off=1`     → `r=2,3`     (generic_shift_vec_right / _left)
+    `op=len f=shr w=5` → `r=5` ; `op=len f=vshr ew=3 n=4` → `r=3,3,3,3` (width of the returned values) -/
 def fits (ew : Nat) (l : List Nat) : Bool := l.all (· < 2 ^ ew)
+
+/-- documented result width: scalars keep the operand width, vectors keep length and entry width -/
+def evalLen (t : List String) : Option String := do
+  let f ← kv? t "f"
+  if ["shr", "shl", "ror", "rol", "gsr", "gsl"].contains f then
+    let w ← nat? t "w"; some s!"r={w}"
+  else if ["vshr", "vshl", "vror", "vrol", "gvsr", "gvsl"].contains f then
+    let ew ← nat? t "ew"; let n ← nat? t "n"
+    if n = 0 then none else some s!"r={showList (List.replicate n ew)}"
+  else none
 
 def eval (t : List String) : Option String := do
   let op ← kv? t "op"
+  if op == "len" then evalLen t else
   let off ← nat? t "off"
   let scalar (f : List Bool → List Bool) : Option String := do
     let w ← nat? t "w"; let x ← nat? t "x"
